@@ -93,6 +93,13 @@ class C18(Prop):
                     c['market'] = dict(c['market'], assets=prim, backup=backup)
                     c['share_handler'] = True
                     c['stream'] += ':two-vendors'
+            if c['market']['kind'] == 'csv' and c['mode'] == 'twice' and rng.random() < 0.6:
+                cfg = c['cfg']
+                c['market'] = csv_market(rng, c['assets'], cfg['start'] // DAY, cfg['end'] // DAY, c['exact'], adjust=True)
+                # another data source object on the same directory with the opposite adjustment setting is used first
+                c['mode'] = 'same_dir'
+                c['event_times'] = [[t, k] for t, k in sl.event_times(c['cfg']['start'], c['cfg']['end'])]
+                c['stream'] += ':same-dir-other-adjust'
             out.append(c)
         return out
 
